@@ -95,3 +95,88 @@ Example C12_nonvacuous :
   length a = length b /\ unpack (Some 10) (pack a) = a /\
   sim_packed (pack a) (pack b) = (3 / 7)%float.
 Proof. vm_compute. repeat split. Qed.
+
+(* ---- further clauses (Proofs/SimMore.v) ----
+   the poles of the most-dissimilar search (first pole: a row least similar to the majority
+   centroid, first on ties; second pole: least similar to the first; also in exact integer
+   cross-multiplied form, I = |a and b|, U = max(|a or b|, 1)); medoid on fewer than three rows
+   and with NaN entries; the complementary similarity of row i is the iSIM of the other rows;
+   centroid of a single row and of any rows *)
+From BB Require Import Proofs.OrderFacts Proofs.SimMore.
+Theorem C12_first_pole_farthest_from_centroid : forall nf Y f1 f2 s1 s2,
+  Y <> [] ->
+  Forall (fun y : fpv => Z.of_nat (length y) < 2 ^ 52) Y -> Z.of_nat nf < 2 ^ 52 ->
+  most_dissimilar nf Y = (f1, f2, s1, s2) ->
+  let sc := map (fun y => sim y (centroid_fpv (colsum nf Y) (zlen Y))) Y in
+  (f1 < length Y)%nat /\
+  (forall j, (j < length Y)%nat ->
+     PrimFloat.ltb (nth j sc 0%float) (nth f1 sc 0%float) = false) /\
+  (forall j, (j < f1)%nat ->
+     PrimFloat.ltb (nth f1 sc 0%float) (nth j sc 0%float) = true).
+Proof. exact most_dissimilar_first_pole_bounded. Qed.
+Theorem C12_second_pole_farthest_from_first : forall nf Y f1 f2 s1 s2,
+  Y <> [] ->
+  Forall (fun y : fpv => Z.of_nat (length y) < 2 ^ 52) Y ->
+  most_dissimilar nf Y = (f1, f2, s1, s2) ->
+  (f2 < length Y)%nat /\
+  (forall j, (j < length Y)%nat ->
+     PrimFloat.ltb (nth j s1 0%float) (nth f2 s1 0%float) = false) /\
+  (forall j, (j < f2)%nat ->
+     PrimFloat.ltb (nth f2 s1 0%float) (nth j s1 0%float) = true).
+Proof. exact most_dissimilar_second_pole_bounded. Qed.
+Theorem C12_poles_exact_rational : forall nf Y f1 f2 s1 s2,
+  Y <> [] ->
+  Forall (fun y : fpv => Z.of_nat (length y) < 2 ^ 25) Y -> Z.of_nat nf < 2 ^ 25 ->
+  most_dissimilar nf Y = (f1, f2, s1, s2) ->
+  let c := centroid_fpv (colsum nf Y) (zlen Y) in
+  let r k := nth k Y [] in
+  (forall j, (j < length Y)%nat -> I (r f1) c * U (r j) c <= I (r j) c * U (r f1) c) /\
+  (forall j, (j < f1)%nat -> I (r f1) c * U (r j) c < I (r j) c * U (r f1) c) /\
+  (forall j, (j < length Y)%nat ->
+     I (r f2) (r f1) * U (r j) (r f1) <= I (r j) (r f1) * U (r f2) (r f1)) /\
+  (forall j, (j < f2)%nat ->
+     I (r f2) (r f1) * U (r j) (r f1) < I (r j) (r f1) * U (r f2) (r f1)).
+Proof. exact most_dissimilar_poles_exact. Qed.
+Theorem C12_pole_self_similarity : forall nf Y f1 f2 s1 s2,
+  Y <> [] ->
+  most_dissimilar nf Y = (f1, f2, s1, s2) ->
+  let y1 := nth f1 Y [] in
+  let y2 := nth f2 Y [] in
+  (0 < card y1 -> Z.of_nat (length y1) < 2 ^ 53 -> nth f1 s1 0%float = 1%float) /\
+  (card y1 = 0 -> nth f1 s1 0%float = 0%float) /\
+  (0 < card y2 -> Z.of_nat (length y2) < 2 ^ 53 -> nth f2 s2 0%float = 1%float) /\
+  (card y2 = 0 -> nth f2 s2 0%float = 0%float).
+Proof. exact most_dissimilar_self_sim. Qed.
+Theorem C12_medoid_small : forall nf rows,
+  (length rows < 3)%nat ->
+  medoid_index nf rows = O /\ compl_isim nf rows = map (fun _ => nan) rows.
+Proof. exact medoid_small. Qed.
+Theorem C12_medoid_in_range_always : forall nf rows,
+  rows <> [] ->
+  (medoid_index nf rows < length rows)%nat.
+Proof. exact medoid_in_range_always. Qed.
+Theorem C12_medoid_first_nan : forall nf rows k,
+  (3 <= length rows)%nat -> (k < length rows)%nat ->
+  (forall j, (j < k)%nat -> is_nan_f (nth j (compl_isim nf rows) 0%float) = false) ->
+  is_nan_f (nth k (compl_isim nf rows) 0%float) = true ->
+  medoid_index nf rows = k.
+Proof. exact medoid_first_nan. Qed.
+Theorem C12_compl_isim_is_leave_one_out : forall nf (rows : list fpv) (i : nat) (d : PrimFloat.float),
+  (3 <= length rows)%nat -> Forall (fun r : fpv => length r = nf) rows ->
+  (i < length rows)%nat ->
+  nth i (compl_isim nf rows) d = isim_f (colsum nf (remove_nth i rows)) (zlen rows - 1) /\
+  zlen (remove_nth i rows) = zlen rows - 1.
+Proof. exact compl_isim_is_leave_one_out. Qed.
+Theorem C12_centroid_single_row : forall nf (r : fpv),
+  length r = nf ->
+  centroid_fpv (colsum nf [r]) 1 = r.
+Proof. exact centroid_single_row. Qed.
+Theorem C12_centroid_of_rows_majority : forall nf (rows : list fpv),
+  1 <= zlen rows < 2 ^ 53 ->
+  centroid_fpv (colsum nf rows) (zlen rows) =
+  map (fun k => zlen rows <=? 2 * k) (colsum nf rows).
+Proof. exact centroid_of_rows1. Qed.
+Theorem C12_centroid_single_member_cast : forall ls n,
+  n <= 1 ->
+  centroid_fpv ls n = map (fun k => negb (k mod 256 =? 0)) ls.
+Proof. exact centroid_fpv_le1. Qed.
